@@ -125,3 +125,20 @@ Definition c12_example : bool :=
   end.
 Example C12_nonvacuous : c12_example = true.
 Proof. vm_compute. reflexivity. Qed.
+
+(* END TO END, close.  A ClosePosition transaction that closes the whole position raises the fee pool's
+   balance by exactly floor(open notional x toll ratio): the close fee is charged on the position's open
+   notional, whatever the payout (the trader's side, including the spread fee, is C04's end-to-end theorem). *)
+Theorem C12_close_position_tx_pool : forall f w t v lim funds w',
+  exec_op f w (OEngine t (EClosePosition v lim) funds) = Ok w' ->
+  let p := read_position (w_eng w) v t in
+  pos_wf p -> cpf_wf (w_eng w) v -> 0 < e_dec (ec (w_eng w)) ->
+  t <> A_ENGINE -> t <> A_IFUND -> t <> if_engine (w_if w) ->
+  t <> e_ifund (ec (w_eng w)) -> t <> e_feepool (ec (w_eng w)) ->
+  find_position (w_eng w') v t = None ->
+  let pool := e_feepool (ec (w_eng w)) in
+  pool <> A_ENGINE -> pool <> A_IFUND -> pool <> if_engine (w_if w) -> pool <> e_ifund (ec (w_eng w)) ->
+  exists vm, get_vamm w v = Ok vm /\
+    bal (w_tok w') pool = bal (w_tok w) pool + fee_of vm (p_notional p) (v_toll (vc vm)).
+Proof. exact close_position_tx_pool. Qed.
+Print Assumptions C12_close_position_tx_pool.
